@@ -87,12 +87,16 @@ pub fn fresh(m: usize, l: usize) -> ProbOrdMinHash2<FnvHasher> {
 }
 
 /// element symbols are encoded before hashing: identity for Fnv; for the no-op hasher (which byte-swaps 4-byte items on
-/// little-endian machines) the encoding makes the hashes of the symbols the adjacent integers 1, 2, 3, ...
+/// little-endian machines) the encoding makes the hashes of the symbols the adjacent integers 1, 2, 3, ...; a second
+/// no-op encoding gives the symbols 64-bit hashes that agree on their low halves, their high halves or their xor-fold
+/// (pre-hashed data whose hashes collide on every natural 32-bit projection without being equal)
 pub trait Enc: std::hash::Hasher + Default {
-    fn enc(e: u32) -> u32;
+    type Item: std::hash::Hash + Eq + Clone + Send + Sync + std::panic::RefUnwindSafe + std::panic::UnwindSafe + 'static;
+    fn enc(e: u32) -> Self::Item;
     fn label() -> &'static str;
 }
 impl Enc for FnvHasher {
+    type Item = u32;
     fn enc(e: u32) -> u32 {
         e
     }
@@ -101,6 +105,7 @@ impl Enc for FnvHasher {
     }
 }
 impl Enc for probminhash::nohasher::NoHashHasher {
+    type Item = u32;
     fn enc(e: u32) -> u32 {
         (e + 1).swap_bytes()
     }
@@ -108,9 +113,32 @@ impl Enc for probminhash::nohasher::NoHashHasher {
         "NoHash(adjacent hashes)"
     }
 }
+/// the no-op hasher again (a distinct type so that it can carry another encoding)
+#[derive(Default)]
+pub struct NoHash64(probminhash::nohasher::NoHashHasher);
+impl std::hash::Hasher for NoHash64 {
+    fn write(&mut self, bytes: &[u8]) {
+        self.0.write(bytes)
+    }
+    fn finish(&self) -> u64 {
+        self.0.finish()
+    }
+}
+pub const STRUCTURED_HASHES: [u64; 6] = [1, 1 << 32, (1 << 32) | 1, (1 << 63) | 1, 1 << 16, (1 << 48) | (1 << 16)];
+impl Enc for NoHash64 {
+    type Item = u64;
+    fn enc(e: u32) -> u64 {
+        // NoHashHasher reads the 8 bytes of a u64 big-endian
+        let h = if (e as usize) < STRUCTURED_HASHES.len() { STRUCTURED_HASHES[e as usize] } else { 0x9e37_79b9_0000_0000u64 + e as u64 };
+        h.swap_bytes()
+    }
+    fn label() -> &'static str {
+        "NoHash64(structured hashes)"
+    }
+}
 
 pub fn run_fresh_h<H: Enc>(m: usize, l: usize, seq: &[u32]) -> Result<Run, String> {
-    let enc: Vec<u32> = seq.iter().map(|e| H::enc(*e)).collect();
+    let enc: Vec<H::Item> = seq.iter().map(|e| H::enc(*e)).collect();
     let plain = seq.to_vec();
     match guarded_mut(move || {
         let mut h = fresh_h::<H>(m, l);
@@ -347,11 +375,11 @@ fn check_config<H: Enc>(alpha: u32, len: usize, m: usize, l: usize, history_pool
                 let r = guarded_mut(move || {
                     let mut h = fresh_h::<H>(m, l);
                     for x in &hl2 {
-                        let ex: Vec<u32> = x.iter().map(|e| H::enc(*e)).collect();
+                        let ex: Vec<H::Item> = x.iter().map(|e| H::enc(*e)).collect();
                         // a refused call (too short) panics: caught, and the instance is used again
                         let _ = guarded_mut(|| h.hash_set(&ex));
                     }
-                    let et: Vec<u32> = tt.iter().map(|e| H::enc(*e)).collect();
+                    let et: Vec<H::Item> = tt.iter().map(|e| H::enc(*e)).collect();
                     let sig = h.hash_set(&et);
                     decode(&h, sig, m, l, &tt)
                 });
@@ -391,6 +419,14 @@ pub fn run(ctx: &Ctx) -> i32 {
                 for x in f {
                     ctx.violation(&x.key, &x.what, x.case);
                 }
+                // pass-through hasher, 64-bit item hashes that collide on their halves / xor-fold, shorter sequences
+                if len <= max_len - 2 || (len <= max_len - 1 && m <= 4) {
+                    configs += 1;
+                    let f = check_config::<NoHash64>(4, len, m, l, &pool, &mut st);
+                    for x in f {
+                        ctx.violation(&format!("{}:nohash64", x.key), &format!("[no-op hasher, item hashes 1, 2^32, 2^32+1, 2^63+1] {}", x.what), x.case);
+                    }
+                }
                 // pass-through hasher with adjacent item hashes (pre-hashed data), shorter sequences
                 if len <= max_len - 1 {
                     configs += 1;
@@ -423,7 +459,7 @@ pub fn run(ctx: &Ctx) -> i32 {
         "exhaustive": true,
         "evaluations": st.calls,
         "distinct_nontrivial": st.distinct_sigs,
-        "rule": "every sequence of length l..6 (8 thorough) over a 4-letter (5 for short lengths, thorough) alphabet, l in {1,2,3}, m in {1,2,4,16} (+3,8,33), with the Fnv hasher and with the no-op hasher on items whose hashes are the adjacent integers 1..4, grouped by multiset: the set of selected (element,occurrence) pairs per position (hook H4) must be identical across all permutations of a multiset and equal the l pairs with the smallest race value (race tables read from the real code on single-element runs); the signature value must be one injective function of the selected elements in sequence order; for l=1 the signature is permutation invariant; results do not depend on 1-2 earlier calls on the instance, including refused calls on sequences shorter than l whose panic is caught; distinct = distinct signatures",
+        "rule": "every sequence of length l..6 (8 thorough) over a 4-letter (5 for short lengths, thorough) alphabet, l in {1,2,3}, m in {1,2,4,16} (+3,8,33), with the Fnv hasher, with the no-op hasher on items whose hashes are the adjacent integers 1..4, and with the no-op hasher on 64-bit items whose hashes {1, 2^32, 2^32+1, 2^63+1} agree pairwise on their low halves, high halves or xor-fold, grouped by multiset: the set of selected (element,occurrence) pairs per position (hook H4) must be identical across all permutations of a multiset and equal the l pairs with the smallest race value (race tables read from the real code on single-element runs); the signature value must be one injective function of the selected elements in sequence order; for l=1 the signature is permutation invariant; results do not depend on 1-2 earlier calls on the instance, including refused calls on sequences shorter than l whose panic is caught; distinct = distinct signatures",
         "configs": configs,
         "sequences": st.sequences,
         "multiset_groups": st.groups,
@@ -452,7 +488,10 @@ pub fn replay(_ctx: &Ctx, case: &Value) -> Result<(bool, String), String> {
             let nohash = case["hasher"].as_str().map(|h| h.starts_with("NoHash")).unwrap_or(false);
             let elements: BTreeSet<u32> = s1.iter().cloned().collect();
             let els: Vec<u32> = elements.into_iter().collect();
-            let (r1, r2, tables) = if nohash {
+            let nohash64 = case["hasher"].as_str().map(|h| h.starts_with("NoHash64")).unwrap_or(false);
+            let (r1, r2, tables) = if nohash64 {
+                (run_fresh_h::<NoHash64>(m, l, &s1)?, run_fresh_h::<NoHash64>(m, l, &s2)?, race_tables_h::<NoHash64>(m, &els, s1.len())?)
+            } else if nohash {
                 type N = probminhash::nohasher::NoHashHasher;
                 (run_fresh_h::<N>(m, l, &s1)?, run_fresh_h::<N>(m, l, &s2)?, race_tables_h::<N>(m, &els, s1.len())?)
             } else {
